@@ -3,14 +3,17 @@
 // C31 correspondence harness: "file imports store every data row of the uploaded file".
 //
 // (1) function level: the unexported conversion functions of internal/api/import_inprocess.go
-//     (intTimeToMicros, autoIntEpochToMicros, arrowTimestampToMicros, inferAndConvertColumn,
-//     isBoolLiteral, stringsToTimeMicros, validateImportHeader, strconv.ParseInt / float64(int64) /
-//     ParseFloat-on-integer-literals as the model assumes them) on edge grids and random inputs;
+//
+//	(intTimeToMicros, autoIntEpochToMicros, arrowTimestampToMicros, inferAndConvertColumn,
+//	isBoolLiteral, stringsToTimeMicros, validateImportHeader, strconv.ParseInt / float64(int64) /
+//	ParseFloat-on-integer-literals as the model assumes them) on edge grids and random inputs;
+//
 // (2) end to end: random CSV and Parquet files uploaded through the REAL endpoints
-//     POST /api/v1/import/{csv,parquet} (fiber app.Test, multipart) into a real ArrowBuffer over a
-//     real LocalBackend in a temp dir under /var/tmp; after the handler the stored Parquet files of
-//     the target measurement are read back (arrow-go) and compared (a) with the compiled Lean model
-//     (op/impl lines) and (b) by property monitors with the generator's ground truth.
+//
+//	POST /api/v1/import/{csv,parquet} (fiber app.Test, multipart) into a real ArrowBuffer over a
+//	real LocalBackend in a temp dir under /var/tmp; after the handler the stored Parquet files of
+//	the target measurement are read back (arrow-go) and compared (a) with the compiled Lean model
+//	(op/impl lines) and (b) by property monitors with the generator's ground truth.
 package main
 
 import (
